@@ -23,9 +23,18 @@ class RandomGeneratorNode(Node):
 
     def _construct(self):
         # first restore the state of the bit generator
-        bit_generator = gettype(
-            "numpy.random", self.children["bit_generator_state"]["bit_generator"]
-        )()
+        bit_generator_state = self.children["bit_generator_state"]
+        bit_generator_cls = gettype(
+            "numpy.random", bit_generator_state["bit_generator"]
+        )
+        if not (
+            isinstance(bit_generator_cls, type)
+            and issubclass(bit_generator_cls, np.random.BitGenerator)
+        ):
+            raise TypeError(
+                f"{bit_generator_state['bit_generator']} is not a numpy bit generator"
+            )
+        bit_generator = bit_generator_cls()
         bit_generator.state = self.children["bit_generator_state"]
 
         # next create the generator instance
